@@ -1,6 +1,7 @@
 import Clover.Props.C02
 import Clover.Spec.Spec
 import Clover.Proofs.RefineFindAll
+import Clover.Proofs.ReadsAny
 /-! # C01 — queries return exactly the documents that satisfy their criteria -/
 namespace CV.Props.C01
 open CV
@@ -58,5 +59,24 @@ theorem findAll_missing_collection (s : Spec.State) (σ : KVS) (hr : Rep s σ) (
 
 /-- non-vacuity: the empty store represents the empty (well-formed) state -/
 example : WF [] ∧ Rep [] [] := ⟨wf_empty, rep_empty⟩
+
+end CV.Props.C01
+
+namespace CV.Props.C01
+open CV
+
+variable (likeFn : LikeFn) (fnFam : FnFam)
+
+/-- **Whatever the index set and whichever plan the planner chose** (index range, index order, full
+    scan; forward or reverse), in every store representing a well-formed abstract state — i.e.
+    after any history (`C06.inv_reachable`) — a fault-free `FindAll(q)` returns only live documents
+    of `q`'s collection, each carrying the fields last written, each satisfying the criteria (any
+    tree, any operand kind), and none of them twice. (That none is missed is planner soundness +
+    scan exactness, `C02`.) -/
+theorem findAll_returns_nothing_else (s : Spec.State) (σ : KVS) (hw : WF s) (hr : Rep s σ) (q : Query)
+    (coll : Spec.Coll) (hl : Spec.lookup q.coll s = some coll) :
+    ∃ res, (withTx false (Op.body likeFn fnFam (.findAll q)) noFault σ).1 = .ok (.docs res) ∧
+      (∀ d ∈ res, Spec.lookup d.objectId coll.docs = some d ∧ satOpt likeFn fnFam d q.crit = true) ∧
+      (res.map Doc.objectId).Nodup := findAll_sound_any_plan likeFn fnFam s σ hw hr q coll hl
 
 end CV.Props.C01
